@@ -12,20 +12,118 @@ namespace Contracts.V30Line
 
 def v30 : Str := py!"M  V30 "
 
+/-! ### general lemmas about the PyModel slice / prefix / suffix operations -/
+
+theorem take_min_length {α} (k : Nat) (l : List α) : l.take (min k l.length) = l.take k := by
+  rw [List.take_eq_take_iff]; simp
+
+theorem drop_min_length {α} (k : Nat) (l : List α) : l.drop (min k l.length) = l.drop k := by
+  rcases Nat.le_total k l.length with h | h
+  · rw [Nat.min_eq_left h]
+  · rw [Nat.min_eq_right h, List.drop_length, List.drop_eq_nil_of_le h]
+
+/-- `l[:k]` -/
+theorem slice_take {α} (l : List α) (k : Nat) : slice l none (some (k : Int)) = l.take k := by
+  have h : ¬ ((k : Int) < 0) := by omega
+  simp only [slice, clampIndex, h, if_false, Int.toNat_natCast, List.drop_zero, take_min_length]
+
+/-- `l[k:]` -/
+theorem slice_drop {α} (l : List α) (k : Nat) : slice l (some (k : Int)) none = l.drop k := by
+  have h : ¬ ((k : Int) < 0) := by omega
+  simp only [slice, clampIndex, h, if_false, Int.toNat_natCast, List.take_length, drop_min_length]
+
+/-- `l[0:-1]` -/
+theorem slice_dropLast {α} (l : List α) : slice l (some 0) (some (-1)) = l.dropLast := by
+  have : ((-1 : Int) + (l.length : Int)).toNat = l.length - 1 := by omega
+  simp [slice, clampIndex, List.dropLast_eq_take, this]
+
+theorem slice_take_71 {α} (l : List α) : slice l none (some (71 : Int)) = l.take 71 := slice_take l 71
+theorem slice_drop_71 {α} (l : List α) : slice l (some (71 : Int)) none = l.drop 71 := slice_drop l 71
+theorem slice_drop_7 {α} (l : List α) : slice l (some (7 : Int)) none = l.drop 7 := slice_drop l 7
+
+theorem startswith_v30 (x : Str) : startswith (v30 ++ x) v30 = true := by
+  simp [startswith]
+
+theorem endswith_dash (x : Str) : endswith (x ++ ['-']) ['-'] = true := by
+  simp [endswith]
+
+theorem endswith_dash_false (p : Str) (h : p.getLast? ≠ some '-') : endswith (v30 ++ p) ['-'] = false := by
+  rw [Bool.eq_false_iff]
+  intro hc
+  simp only [endswith, List.isSuffixOf_iff_suffix] at hc
+  obtain ⟨t, ht⟩ := hc
+  have : (v30 ++ p).getLast? = some '-' := by rw [← ht]; simp
+  rw [List.getLast?_append] at this
+  cases hp : p.getLast? with
+  | none => rw [hp] at this; simp [v30] at this
+  | some c => rw [hp] at this h; simp at this; exact h (by rw [this])
+
+/-! ### the writer -/
+
 /-- spec of the writer: a logical line of more than 72 characters is cut after 71 characters,
 each non-final piece gets a trailing `-`, every piece is prefixed with `M  V30 ` -/
 def wrap (l : Str) : List Str :=
-  if h : l.length ≤ 72 then [v30 ++ l] else (v30 ++ l.take 71 ++ ['-']) :: wrap (l.drop 71)
+  if _h : l.length ≤ 72 then [v30 ++ l] else (v30 ++ l.take 71 ++ ['-']) :: wrap (l.drop 71)
 termination_by l.length
 decreasing_by simp [List.length_drop]; omega
 
+theorem wrap_of_le {l : Str} (h : l.length ≤ 72) : wrap l = [v30 ++ l] := by
+  rw [wrap]; simp [h]
+
+theorem wrap_of_gt {l : Str} (h : ¬ l.length ≤ 72) :
+    wrap l = (v30 ++ l.take 71 ++ ['-']) :: wrap (l.drop 71) := by
+  rw [wrap]; simp [h]
+
 /-- C09: no physical line exceeds 79 characters (80 with the newline) -/
-theorem wrap_length_le (l : Str) : ∀ p ∈ wrap l, p.length ≤ 79 := sorry
+theorem wrap_length_le (l : Str) : ∀ p ∈ wrap l, p.length ≤ 79 := by
+  induction l using wrap.induct with
+  | case1 l h =>
+    intro p hp
+    rw [wrap_of_le h] at hp
+    simp at hp; subst hp; simp [v30]; omega
+  | case2 l h ih =>
+    intro p hp
+    rw [wrap_of_gt h] at hp
+    simp only [List.mem_cons] at hp
+    rcases hp with rfl | hp
+    · simp [v30, List.length_take]; omega
+    · exact ih p hp
+
+/-- the last piece of the wrapped line (value of the loop variable `line` at loop exit) -/
+def lastPiece (l : Str) : Str :=
+  if _h : l.length ≤ 72 then l else lastPiece (l.drop 71)
+termination_by l.length
+decreasing_by simp [List.length_drop]; omega
+
+/-- loop invariant of `_add_v30_line`, for any loop body that performs the step described by `hbody`:
+with enough fuel the loop exits through `break` with `lines ++ wrap line` -/
+theorem add_v30_loop {β : Type} (body : β → List Str × Str × Bool → M (ForInStep (List Str × Str × Bool)))
+    (hbody : ∀ x lines line d, body x (lines, line, d) =
+      if line.length ≤ 72 then .ok (.done (lines ++ [v30 ++ line], line, true))
+      else .ok (.yield (lines ++ [v30 ++ line.take 71 ++ ['-']], line.drop 71, d)))
+    (xs : List β) (lines : List Str) (line : Str) (hf : line.length / 71 + 1 ≤ xs.length) :
+    forIn xs (lines, line, false) body = .ok (lines ++ wrap line, lastPiece line, true) := by
+  induction xs generalizing lines line with
+  | nil => simp at hf
+  | cons x xs ih =>
+    rw [List.forIn_cons, hbody]
+    by_cases h : line.length ≤ 72
+    · rw [wrap_of_le h, lastPiece]; simp [h]
+    · have hf' : (line.drop 71).length / 71 + 1 ≤ xs.length := by
+        simp only [List.length_drop, List.length_cons] at hf ⊢; omega
+      rw [wrap_of_gt h, lastPiece]; simp [h, ih _ _ hf']
 
 /-- contract of `_add_v30_line` (total correctness: enough fuel ⇒ terminates with the spec value;
 frame: `lines` is only appended to) -/
 theorem add_v30_line_ok (env : DepEnv) (fuel : Nat) (lines : List Str) (l : Str) (hf : l.length / 71 + 1 ≤ fuel) :
-    Tucan.molfile_writer._add_v30_line env fuel lines l = .ok (lines ++ wrap l) := sorry
+    Tucan.molfile_writer._add_v30_line env fuel lines l = .ok (lines ++ wrap l) := by
+  unfold Tucan.molfile_writer._add_v30_line
+  simp only []
+  rw [add_v30_loop]
+  · simp
+  · intro x lines line d
+    simp [pyLe, PyCmp.gt, POrd.lt, slice_take_71, slice_drop_71, pyStr, v30]
+  · simpa using hf
 
 /-- physical lines for arbitrary cut points (any spelling the format permits, C07): every piece but
 the last gets a trailing dash -/
@@ -34,8 +132,28 @@ def phys : List Str → List Str
   | [p] => [v30 ++ p]
   | p :: q :: r => (v30 ++ p ++ ['-']) :: phys (q :: r)
 
+theorem phys_cons_of_ne_nil (p : Str) {r : List Str} (h : r ≠ []) :
+    phys (p :: r) = (v30 ++ p ++ ['-']) :: phys r := by
+  cases r with
+  | nil => exact absurd rfl h
+  | cons q r => simp [phys]
+
 theorem wrap_eq_phys (l : Str) : ∃ pieces : List Str, pieces ≠ [] ∧ pieces.flatten = l ∧ wrap l = phys pieces ∧
-    (∀ p ∈ pieces.dropLast, p.length = 71) := sorry
+    (∀ p ∈ pieces.dropLast, p.length = 71) := by
+  induction l using wrap.induct with
+  | case1 l h => exact ⟨[l], by simp, by simp, by rw [wrap_of_le h]; simp [phys], by simp⟩
+  | case2 l h ih =>
+    obtain ⟨pieces, hne, hfl, hw, hlen⟩ := ih
+    refine ⟨l.take 71 :: pieces, by simp, ?_, ?_, ?_⟩
+    · rw [List.flatten_cons, hfl, List.take_append_drop]
+    · rw [wrap_of_gt h, hw, phys_cons_of_ne_nil _ hne]
+    · intro p hp
+      rw [List.dropLast_cons_of_ne_nil hne, List.mem_cons] at hp
+      rcases hp with rfl | hp
+      · rw [List.length_take]; omega
+      · exact hlen p hp
+
+/-! ### the reader -/
 
 /-- spec of the reader: splice every run of continued lines -/
 def splice : List Str → M (List Str)
@@ -50,24 +168,145 @@ def splice : List Str → M (List Str)
       pure (l :: rest)
 termination_by ls => ls.length
 
+/-- loop invariant of `_concat_lines_with_dash`, for any loop body that performs the step described by
+`hbody`: `final_lines ++ splice deque` is preserved, `|deque|` decreases -/
+theorem concat_loop {β : Type} (body : β → List Str × List Str × Bool → M (ForInStep (List Str × List Str × Bool)))
+    (hbody : ∀ x final deque d, body x (final, deque, d) =
+      match deque with
+      | [] => .ok (.done (final, [], true))
+      | [l] => .ok (.done (final ++ [l], [], true))
+      | l :: l₂ :: r =>
+        if startswith l v30 && endswith l ['-'] then
+          if startswith l₂ v30 then .ok (.yield (final, (l.dropLast ++ l₂.drop 7) :: r, d))
+          else .error (Err.custom "MolfileParserException")
+        else .ok (.yield (final ++ [l], l₂ :: r, d)))
+    (xs : List β) (final deque : List Str) (hf : deque.length + 1 ≤ xs.length) :
+    forIn xs (final, deque, false) body =
+      (do let s ← splice deque; pure (final ++ s, ([] : List Str), true)) := by
+  induction xs generalizing final deque with
+  | nil => simp at hf
+  | cons x xs ih =>
+    rw [List.forIn_cons, hbody]
+    match deque, hf with
+    | [], _ => simp [splice]
+    | [l], _ => simp [splice]
+    | l :: l₂ :: r, hf =>
+      simp only [List.length_cons] at hf
+      rw [splice]
+      by_cases h1 : (startswith l v30 && endswith l ['-']) = true
+      · by_cases h2 : startswith l₂ v30 = true
+        · simp only [h1, h2, if_true, Py.ok_bind]
+          rw [ih]
+          simp only [List.length_cons]; omega
+        · simp [h1, h2]
+      · simp only [h1, if_false, Py.ok_bind, Bool.false_eq_true]
+        rw [ih _ _ (by simp only [List.length_cons]; omega)]
+        cases splice (l₂ :: r) <;> simp
+
 /-- contract of `_concat_lines_with_dash`: equals the spec, including the rejecting path -/
 theorem concat_lines_with_dash_ok (env : DepEnv) (fuel : Nat) (ls : List Str) (hf : ls.length + 1 ≤ fuel) :
-    Tucan.molfile_v3000_reader._concat_lines_with_dash env fuel ls = splice ls := sorry
+    Tucan.molfile_v3000_reader._concat_lines_with_dash env fuel ls = splice ls := by
+  unfold Tucan.molfile_v3000_reader._concat_lines_with_dash
+  simp only []
+  rw [concat_loop]
+  · simp only [pyIter_list]
+    cases splice ls <;> simp
+  · intro x final deque d
+    rcases deque with _ | ⟨l, _ | ⟨l₂, r⟩⟩
+    · simp [truthy]
+    · simp [truthy, popFirst]
+    · simp [truthy, popFirst, slice_dropLast, slice_drop_7, v30]
+      split_ifs <;> simp_all
+  · simpa using hf
+
+theorem phys_cons (q : Str) (r : List Str) : ∃ sfx tl, ∀ p : Str,
+    phys ((p ++ q) :: r) = (v30 ++ (p ++ q) ++ sfx) :: tl := by
+  cases r with
+  | nil => exact ⟨[], [], fun p => by simp [phys]⟩
+  | cons q' r' => exact ⟨['-'], phys (q' :: r'), fun p => by simp [phys]⟩
+
+theorem splice_phys_aux (r : List Str) : ∀ (p : Str) (rest : List Str),
+    ((p :: r).flatten).getLast? ≠ some '-' →
+    splice (phys (p :: r) ++ rest) = (do let t ← splice rest; pure ((v30 ++ (p :: r).flatten) :: t)) := by
+  induction r with
+  | nil =>
+    intro p rest h
+    simp only [List.flatten_cons, List.flatten_nil, List.append_nil] at h ⊢
+    cases rest with
+    | nil => simp [phys, splice]
+    | cons l₂ r =>
+      simp only [phys, List.cons_append, List.nil_append]
+      rw [splice]
+      simp [endswith_dash_false p h]
+  | cons q r ih =>
+    intro p rest h
+    obtain ⟨sfx, tl, hq⟩ := phys_cons q r
+    have h0 := hq []
+    simp only [List.nil_append] at h0
+    have hl : phys (p :: q :: r) = (v30 ++ p ++ ['-']) :: phys (q :: r) := by simp [phys]
+    rw [hl, h0, List.cons_append, List.cons_append, splice]
+    have e1 : startswith (v30 ++ p ++ ['-']) v30 = true := by
+      rw [List.append_assoc]; exact startswith_v30 _
+    have e2 : startswith (v30 ++ q ++ sfx) v30 = true := by
+      rw [List.append_assoc]; exact startswith_v30 _
+    have e3 : (v30 ++ p ++ ['-']).dropLast ++ (v30 ++ q ++ sfx).drop 7 = v30 ++ (p ++ q) ++ sfx := by
+      have d1 : (v30 ++ p ++ ['-']).dropLast = v30 ++ p := List.dropLast_concat
+      have d2 : (v30 ++ q ++ sfx).drop 7 = q ++ sfx := by simp [v30]
+      rw [d1, d2]; simp
+    simp only [e1, e2, e3, endswith_dash, Bool.and_self, if_true]
+    rw [← List.cons_append, ← hq p, ih (p ++ q) rest (by simpa using h)]
+    simp
 
 /-- the inverse law: a logical line that does not end in `-`, cut at arbitrary points, is spliced
 back to exactly that line, whatever follows -/
 theorem splice_phys (pieces : List Str) (rest : List Str) (hne : pieces ≠ [])
     (hlast : (pieces.flatten).getLast? ≠ some '-') :
-    splice (phys pieces ++ rest) = (do let t ← splice rest; pure ((v30 ++ pieces.flatten) :: t)) := sorry
+    splice (phys pieces ++ rest) = (do let t ← splice rest; pure ((v30 ++ pieces.flatten) :: t)) := by
+  cases pieces with
+  | nil => exact absurd rfl hne
+  | cons p r => exact splice_phys_aux r p rest hlast
 
 /-- C09 corollary: what the writer wraps, the reader splices back -/
 theorem splice_wrap (l : Str) (rest : List Str) (hlast : l.getLast? ≠ some '-') :
-    splice (wrap l ++ rest) = (do let t ← splice rest; pure ((v30 ++ l) :: t)) := sorry
+    splice (wrap l ++ rest) = (do let t ← splice rest; pure ((v30 ++ l) :: t)) := by
+  obtain ⟨pieces, hne, hfl, hw, _⟩ := wrap_eq_phys l
+  rw [hw, splice_phys pieces rest hne (by rw [hfl]; exact hlast), hfl]
 
 /-- blank-separated tokens of a line -/
 def tokens (l : Str) : List Str := (split (rstrip l) py!" ").filter (· ≠ [])
 
+theorem filterMap_ne_nil (line : List Str) :
+    line.filterMap (fun value => if value ≠ [] then some value else none) = line.filter (· ≠ []) := by
+  induction line with
+  | nil => rfl
+  | cons a t ih => by_cases ha : a = [] <;> simpa [ha] using ih
+
 theorem tokenize_lines_ok (env : DepEnv) (fuel : Nat) (ls : List Str) (hf : ls.length + 1 ≤ fuel) :
-    Tucan.molfile_v3000_reader._tokenize_lines env fuel ls = (do let s ← splice ls; pure (s.map tokens)) := sorry
+    Tucan.molfile_v3000_reader._tokenize_lines env fuel ls = (do let s ← splice ls; pure (s.map tokens)) := by
+  unfold Tucan.molfile_v3000_reader._tokenize_lines
+  simp only []
+  rw [concat_lines_with_dash_ok env fuel ls hf]
+  cases splice ls with
+  | error e => simp
+  | ok s =>
+    simp only [Py.ok_bind, pyIter_list, Py.pure_eq_ok]
+    rw [listComp_ok s _ (fun line => some (split (rstrip line) py!" ")) (fun _ _ => rfl)]
+    simp only [Py.ok_bind]
+    rw [listComp_ok _ _ (fun line => some (line.filter (· ≠ [])))]
+    · simp [tokens, Function.comp_def]
+    · intro line _
+      rw [listComp_ok line _ (fun value => if value ≠ [] then some value else none)]
+      · simp only [Py.ok_bind]
+        rw [filterMap_ne_nil]
+      · intro value _
+        by_cases hv : value = [] <;> simp [pyNe, PyCmp.eq, hv]
+
+#print axioms wrap_length_le
+#print axioms add_v30_line_ok
+#print axioms wrap_eq_phys
+#print axioms concat_lines_with_dash_ok
+#print axioms splice_phys
+#print axioms splice_wrap
+#print axioms tokenize_lines_ok
 
 end Contracts.V30Line
